@@ -39,7 +39,7 @@ fn valid(t: &DecompTree, g: &Graph) -> Result<(), String> {
 
 pub fn run(cx: &mut Ctx) {
     cx.check("moves_keep_tree_valid_and_cache_fresh", |cb| {
-        for n in 2..=9usize { for seed in 0..12u64 {
+        for n in 2..=9usize { for seed in 0..12 * crate::scale() {
             let g = make_graph(n, seed * 31 + n as u64);
             let mut rng = SmallRng::seed_from_u64(seed);
             let mut t = DecompTree::random_decomp(&g, &mut rng);
@@ -64,7 +64,7 @@ pub fn run(cx: &mut Ctx) {
     });
     cx.check("annealer_never_widens", |cb| {
         use quizx::rankwidth::annealer::RankwidthAnnealer;
-        for n in 6..=11usize { for seed in 0..150u64 {
+        for n in 6..=11usize { for seed in 0..150 * crate::scale() {
             let g = make_graph(n, seed * 7 + n as u64);
             let v = guard(|| {
                 let mut r0 = SmallRng::seed_from_u64(seed ^ 0xABCD);
@@ -85,7 +85,7 @@ pub fn run(cx: &mut Ctx) {
     // score — a start the annealer is tempted to leave for a lower-scoring but wider tree
     cx.check("annealer_keeps_a_narrow_start", |cb| {
         use quizx::rankwidth::annealer::RankwidthAnnealer;
-        for n in 8..=11usize { for gs in 0..20u64 {
+        for n in 8..=11usize { for gs in 0..20 * crate::scale() {
             let g = make_graph(n, gs * 13 + n as u64);
             let mut r0 = SmallRng::seed_from_u64(gs);
             let mut best: Option<(usize, usize, DecompTree)> = None;
